@@ -4,7 +4,7 @@ import apicheck as A
 
 PROFILE = dict(p_table_junk=0.06, p_dangling_style=0.3, p_unknown=0.2, p_break=0.25, p_sym=0.15, p_image=0.2, style_map=0.5, p_note=0.2, p_comment=0.15, p_textbox=0.1,
                p_table=0.2, p_pstyle=0.5, p_rstyle=0.4, separators=True, p_embedded_map=0.15, p_cross_style=0.2)
-CLEAN = dict(p_dangling_style=0.0, p_unknown=0.0, p_break=0.0, p_sym=0.0, p_image=0.0, style_map=0.0, p_pstyle=0.0, p_rstyle=0.0, p_numbering=0.0,
+CLEAN = dict(p_dangling_style=0.0, p_unknown=0.0, p_break=0.0, p_sym=0.0, p_image=0.12, clean_media=True, style_map=0.0, p_pstyle=0.0, p_rstyle=0.0, p_numbering=0.0,
              p_embedded_map=0.0, p_altcontent=0.0, p_tstyle=0.0, p_sdt=0.05, p_table=0.2, p_note=0.2, p_textbox=0.1, optional_absent=0.3)
 
 
